@@ -192,3 +192,65 @@ pub fn compile_spec(e: &s::Expr, depth: bool, threads: Option<u32>, mdt: &str) -
     let real = conv::expr_to_real(e)?;
     Some(compile_render(&real, &options(depth, threads), mdt))
 }
+
+// ---- one compiled expression rendered by several threads at once ---------------------------
+// The compiled type is not nameable from outside and need not be `Sync`; autoref-based dispatch
+// picks the threaded run when it is and reports "not shareable" otherwise, so that this harness
+// builds against either.
+pub struct SharedRender<'a, T, F>(&'a T, F);
+
+fn shared_render<'a, T, F: Fn(&T, &str) -> String>(t: &'a T, f: F) -> SharedRender<'a, T, F> {
+    SharedRender(t, f)
+}
+
+pub trait RenderFromThreads {
+    fn stress(&self, paths: &[String], expected: &[String], rounds: usize) -> Option<Vec<(usize, usize, String)>>;
+}
+
+impl<'a, T: Sync, F: Fn(&T, &str) -> String + Sync> RenderFromThreads for SharedRender<'a, T, F> {
+    fn stress(&self, paths: &[String], expected: &[String], rounds: usize) -> Option<Vec<(usize, usize, String)>> {
+        let barrier = std::sync::Barrier::new(paths.len());
+        let found = std::sync::Mutex::new(vec![]);
+        std::thread::scope(|s| {
+            for (k, p) in paths.iter().enumerate() {
+                let (barrier, found, this) = (&barrier, &found, &self);
+                s.spawn(move || {
+                    barrier.wait();
+                    for r in 0..rounds {
+                        let got = match std::panic::catch_unwind(std::panic::AssertUnwindSafe(|| (this.1)(this.0, p))) {
+                            Ok(g) => g,
+                            Err(_) => "<panic while rendering>".to_string(),
+                        };
+                        if got != expected[k] {
+                            found.lock().unwrap().push((k, r, got));
+                            break;
+                        }
+                    }
+                });
+            }
+        });
+        Some(found.into_inner().unwrap())
+    }
+}
+
+pub trait RenderNotShareable {
+    fn stress(&self, _: &[String], _: &[String], _: usize) -> Option<Vec<(usize, usize, String)>> {
+        None
+    }
+}
+
+impl<'a, T, F> RenderNotShareable for &SharedRender<'a, T, F> {}
+
+/// Compile once, render sequentially for each path (the expected texts), then let one thread per
+/// path render the shared value `rounds` times.  Ok(None): the compiled type is not `Sync`.
+/// Ok(Some(v)): v lists (thread, round, text) of the first wrong rendering of each thread.
+pub fn concurrent_render(e: &Expression, o: &RunOptions, paths: &[String], rounds: usize) -> Result<Option<Vec<(usize, usize, String)>>, String> {
+    let c = match guard(|| compile(e, o)) {
+        Ok(Ok(c)) => c,
+        Ok(Err(e)) => return Err(e.to_string()),
+        Err(p) => return Err(format!("panic: {p}")),
+    };
+    let expected: Vec<String> = paths.iter().map(|p| c.scheme(p)).collect();
+    let w = shared_render(&c, |c, p| c.scheme(p));
+    Ok((&w).stress(paths, &expected, rounds))
+}
